@@ -46,6 +46,12 @@ def run(prop, tier):
             "sweep_from_cache": agg.get("from_cache"),
         }
     )
+    try:  # wp2_bfull2: whole-rule (B-full) correspondence of the indent / vertical-spacing families
+        import props_bfull2
+
+        props_bfull2.extra(res, tier, "C10")
+    except ImportError:
+        pass
     res.assumptions = ["rule bodies are layer U: idempotence of a rule is decided on the explored (state, rule) pairs only; the Lean theorems reduce it to 'the re-analysis offers nothing repairable'", "the deep copy shares configuration and rule objects with the run it was taken from"]
     return res.finish(max(nobl, 1), ndis, "cd lean && lake build VsgProofs.Properties.C10", thms)
 
